@@ -478,3 +478,50 @@ def v5_task(envr, item):
 GROUPS.append(Group('V5', 'copy constructor / copy(): structurally equal value in new containers, source untouched',
                     ['C08', 'C05', 'C13'], 'B', ['AnsiString.__init__', 'AnsiString.copy', '_AnsiSettingPoint.__init__'],
                     v5_items, v5_task, bounds='change points N<=3/4, objects<=2/3'))
+
+
+# ============================================================================================= N2: find_settings
+CL_N2 = [
+    Clause('empty-range-or-empty-settings', 'post_find_degenerate'),
+    Clause('found-start-has-all-found-end-lacks-one', 'post_find_start_end'),
+    Clause('every-position-consistent-with-the-answer', 'post_find_positions', forall='find_k_range'),
+]
+
+
+def n2_items(tier):
+    shp = tier_shapes(tier, (3, 2, 2, 2), (3, 3, 2, 2))
+    out = []
+    for sh in shp:
+        for nsel in (0, 1, 2):
+            if nsel == 0 and len(sh) > 0:
+                continue
+            if tier == 'quick' and nsel == 2 and len(sh) > 2:
+                continue
+            for bk in ('11', '00', '10'):
+                if tier == 'quick' and bk == '10' and len(sh) > 2:
+                    continue
+                for rev in (0, 1):
+                    out.append([sh, nsel, bk, rev])
+    return out
+
+
+def n2_task(envr, item):
+    shape, nsel, bk, rev = item
+
+    def body(c):
+        s, info = shapes.build_ansistring(c, shape, 'a')
+        settings = PList([opaque_setting(c, 'Sel%d' % j) for j in range(nsel)])
+        start = sym_or_none(c, 'start', bk[0] == '0')
+        end = sym_or_none(c, 'end', bk[1] == '0')
+        if start is None:
+            start = 0
+        run_contract(envr, c, 'AnsiString.find_settings', s, [settings, start, end, bool(rev)], {}, CL_N2,
+                     frame=('self', 'settings'))
+    return ContractRun(body, CL_N2, frame=('self', 'settings'), use=('SL',))
+
+
+GROUPS.append(Group('N2', 'find_settings: the answer is consistent with the per-position settings over the inclusive normalised range',
+                    ['C17'], 'B', ['AnsiString.find_settings', 'AnsiString.ansi_settings_at', '_AnsiSettingsIterator.__next__',
+                                   '_AnsiSettingPoint._scrub_ansi_settings'], n2_items, n2_task,
+                    bounds='change points N<=3, objects<=2/3, 0-2 searched settings (texts symbolic, may equal table settings), '
+                    'start/end symbolic or omitted, both directions', assumes=['SL', 'N1']))
